@@ -275,6 +275,23 @@ def install(cfg):
         interp.ctx.ghost["time.time"] = r
         return SVal(mk_float(r))
 
+    # ---- datetime / calendar: a datetime is (wall-clock seconds since the epoch, utc offset or None) ----------
+    cfg.isinstance_foreign[datetime.datetime] = lambda interp, f: f.kind == "datetime"
+    cfg.isinstance_foreign[datetime.date] = lambda interp, f: f.kind == "datetime"
+    cfg.foreign_real_class["datetime"] = datetime.datetime
+
+    def dt_utctimetuple(interp, d, args, kwargs):
+        # datetime.utctimetuple(): the fields of (self - utcoffset) for an aware value, the fields as they are for a naive one
+        return Foreign("struct_time", secs=d.f["wall"] if d.f["off"] is None else d.f["wall"] - d.f["off"])
+    cfg.foreign_methods[("datetime", "utctimetuple")] = dt_utctimetuple
+    cfg.foreign_methods[("datetime", "timetuple")] = lambda interp, d, args, kwargs: Foreign("struct_time", secs=d.f["wall"])
+
+    @cfg.stub(calendar.timegm)
+    def timegm(interp, st):
+        if isinstance(st, Foreign) and st.kind == "struct_time":
+            return SVal(mk_int(st.f["secs"]))
+        raise Unsupported("calendar.timegm of a non-struct_time")
+
     @cfg.stub(warnings.warn)
     def warn(interp, *a, **k):
         interp.ctx.events.append(("warn", a[0] if a else None))
